@@ -81,11 +81,29 @@ def run(ctx):
     for i in f.insts():
         if i.op == "store" and G.parse_store(i)[0] == "0" and G.parse_store(i)[1] in oe_loads:
             truncs.append(i)
+    # ... or a helper of the unit that is handed old_end and zeroes what its parameter points at (memset with 0, or zero
+    # stores through the parameter) and nothing else through it
+    for c in f.calls():
+        if c.indirect or not c.callee or c.callee not in m.functions or not c.args or c.args[0] not in oe_loads:
+            continue
+        h = m.functions[c.callee]
+        if not h.blocks or len(c.args) != 1:
+            continue
+        hp = G.param_slot(h, 0)
+        hvals, hslots = G.derived(h, hp)
+        hl = set(FL.loads_of(h, hp)) | set(hvals)
+        zeroes = [x for x in h.calls() if x.callee and (x.callee.startswith("llvm.memset") or x.callee == "memset") and len(x.args) >= 2 and x.args[0] in hl and x.args[1] == "0"]
+        zeroes += [x for x in h.insts() if x.op == "store" and G.parse_store(x)[0] == "0" and x.text.startswith("store i8 ") and G.parse_store(x)[1] in hl]
+        others = [x for x in h.insts() if x.op == "store" and x.text.startswith("store i8 ") and G.parse_store(x)[0] != "0" and G.parse_store(x)[1] in hl]
+        if zeroes and not others:
+            truncs.append(c)
     ctx.require(len(truncs) >= 1, "walk_ports: truncation at old_end not found")
     writers = []
     for c in f.calls():
         if c.callee and c.callee.startswith("llvm."):
             continue
+        if any(c is t_ for t_ in truncs):
+            continue                 # the helper that cuts the buffer back is no writer
         if any(a in nb_vals or a in oe_loads for a in c.args):
             if FL.loop_latches_for(f, c):
                 writers.append(c)
